@@ -11,6 +11,9 @@ pub trait Fragmentable: Sized {
     fn from_buffer(buf: Bytes) -> Option<Self>;
 }
 
+// the reassemble bitmap is an u128
+const MAX_FRAGMENTS: usize = 128;
+
 // id:u16 total:u7 offset:u7
 pub struct Fragments<T> {
     timeout: Duration,
@@ -41,10 +44,16 @@ where
     }
 
     pub fn reassemble(&mut self, mut buf: Bytes) -> Option<T> {
+        if buf.len() < 4 {
+            return None;
+        }
         let mut head = buf.split_to(4);
         let id = head.get_u16();
         let total = head.get_u8();
         let seq = head.get_u8();
+        if total == 0 || total as usize > MAX_FRAGMENTS || seq >= total {
+            return None;
+        }
         // tracing::trace!("reassemble id: {} total: {} seq: {}", id, total, seq);
         if total == 1 && seq == 0 {
             T::from_buffer(buf)
@@ -132,14 +141,19 @@ impl ReassembleQueue {
     fn new(total: u8, seq: u8, buf: Bytes) -> Self {
         let total = total as usize;
         let this = seq as usize;
-        let bitmap = !0u128 << total | 1 << this;
+        let high = if total >= MAX_FRAGMENTS {
+            0
+        } else {
+            !0u128 << total
+        };
+        let bitmap = high | 1 << this;
         let mut fragments = vec![Bytes::new(); total];
         fragments[this] = buf;
         Self { bitmap, fragments }
     }
     fn add_fragment(&mut self, seq: u8, buf: Bytes) -> bool {
         let this = seq as usize;
-        if self.bitmap & (1 << this) == 0 {
+        if this < self.fragments.len() && self.bitmap & (1 << this) == 0 {
             self.bitmap |= 1 << this;
             self.fragments[this] = buf;
             return !self.bitmap == 0;
